@@ -1402,15 +1402,16 @@ func progressKind(fn *ssa.Function, inc *ssa.Call, also func(pred func(ssa.Instr
 			continue
 		}
 		cmp, ok := iff.Cond.(*ssa.BinOp)
-		if !ok || cmp.Op != token.NEQ {
+		if !ok || (cmp.Op != token.NEQ && cmp.Op != token.EQL) {
 			continue
 		}
 		fx, fy := core.LoadedField(cmp.X), core.LoadedField(cmp.Y)
 		if fx == nil || fy == nil || core.FieldVar(fx) != core.FieldVar(fy) {
 			continue
 		}
-		// one of the two loads happens before any store to the field (the value at entry)
-		if !core.GuardedBy(iff, true, inc) {
+		// one of the two loads happens before any store to the field (the value at entry); the request sits on the
+		// "differs" side — the true edge of `!=`, or past the guard clause `if cur == entry { return }`
+		if !core.GuardedBy(iff, cmp.Op == token.NEQ, inc) {
 			continue
 		}
 		for _, ld := range []ssa.Value{cmp.X, cmp.Y} {
